@@ -1255,11 +1255,11 @@ Proof.
   rewrite (avgz_p _ _ P). symmetry. exact (TB (Leaf xs) B).
 Qed.
 
-(* three Decimal128(38, 0) values whose average is representable: the sequential run panics (dev) / wraps
-   (release) on the second row, a plan that first combines the last two rows succeeds *)
+(* three Decimal128(38, 0) values whose average is representable: the sequential run fails ("Avg overflowed")
+   on the second row, a plan that first combines the last two rows succeeds *)
 Lemma avgd_split_invariant_refuted :
   exists t xs, Permutation (nn (flatten t)) (nn xs) /\
-    result_tree (avg_dec 0) t = Ok (FRat (inject_Z ((10 ^ 38 - 1) / 3))) /\ run_chunk (avg_dec 0) xs = Panic.
+    result_tree (avg_dec 0) t = Ok (FRat (inject_Z ((10 ^ 38 - 1) / 3))) /\ run_chunk (avg_dec 0) xs = Err.
 Proof.
   exists (Node (Leaf [Some (10 ^ 38 - 1)%Z]) (Leaf [Some (10 ^ 38 - 1)%Z; Some (- (10 ^ 38 - 1))%Z])).
   exists [Some (10 ^ 38 - 1)%Z; Some (10 ^ 38 - 1)%Z; Some (- (10 ^ 38 - 1))%Z].
@@ -1329,6 +1329,38 @@ Lemma avg_dec_total_when_bounded scale : forall t xs,
   Permutation (nn (flatten t)) (nn xs) -> (abs_sum (nn xs) < 2 ^ 127)%Z ->
   run_tree (avg_dec scale) t = run_chunk (avg_dec scale) xs /\ exists s, run_tree (avg_dec scale) t = Ok s.
 Proof. exact (avgd_total_when_bounded (pow10 scale)). Qed.
+
+(* the outcome is a value or the error "Avg overflowed", never a panic *)
+Lemma avgd_foldM_class (k : Q) : forall l s, ok_or_err (foldM (feed (avg_d k)) l s).
+Proof.
+  induction l as [|[x|] l IH]; intros s.
+  - exact I.
+  - change (Some x :: l) with ([Some x] ++ l). rewrite foldM_app.
+    unfold foldM at 1. cbn [fold_left bind feed].
+    destruct s as [sum count]. cbn [a_update avg_d].
+    destruct (in_i 128 (sum + x)); cbn [bind]; [apply IH|exact I].
+  - change (None :: l) with ([None] ++ l). rewrite foldM_app.
+    unfold foldM at 1. cbn [fold_left bind feed]. apply IH.
+Qed.
+
+Lemma avgd_tree_class (k : Q) : forall t, ok_or_err (run_tree (avg_d k) t).
+Proof.
+  induction t as [xs|l IHl r IHr|t IH xs]; cbn [run_tree].
+  - apply avgd_foldM_class.
+  - destruct (run_tree (avg_d k) l) as [a| | |]; cbn [bind]; try exact IHl.
+    destruct (run_tree (avg_d k) r) as [b| | |]; cbn [bind]; try exact IHr.
+    destruct a as [s1 c1], b as [s2 c2]. cbn [a_merge avg_d].
+    destruct (in_i 128 (s1 + s2)); exact I.
+  - destruct (run_tree (avg_d k) t) as [a| | |]; cbn [bind]; try exact IH. apply avgd_foldM_class.
+Qed.
+
+Lemma avg_dec_outcome_class scale : forall t,
+  (exists s, run_tree (avg_dec scale) t = Ok s) \/ run_tree (avg_dec scale) t = Err.
+Proof.
+  intros t. pose proof (avgd_tree_class (pow10 scale) t) as H. unfold avg_dec.
+  destruct (run_tree (avg_d (pow10 scale)) t) as [a| | |]; cbn in H; try contradiction;
+    [left; exists a; reflexivity|right; reflexivity].
+Qed.
 
 (* negative scales: avg over the Decimal(5,-2) values 1200, 3400 (unscaled 12, 34) is 2300 *)
 Lemma avg_dec_negative_scale :
